@@ -247,17 +247,25 @@ def directFallback (tbl : Nat → Option ORes) (c : Cache) (r : Req) (range : Op
   let u := upReq r range
   { out := .direct (originAnswer tbl u), label := .miss, cache := c, log := log ++ [u], rangeDropped := dropped }
 
-def dedupFetch (cfg : Cfg) (tbl : Nat → Option ORes) (c : Cache) (now : Int) (r : Req) (range : Option Str) (rangePresent : Bool) : DF :=
+/-- `dedupFetch` with the window between the cache lookup and the processing
+    of the upstream answer made explicit: `c` is the cache at LOOKUP time (used
+    for `lookup`, for building the conditional request from the stored
+    validators, and returned unchanged on a fresh hit, where no upstream
+    exchange happens); `cMid` is the cache as it is when the upstream answer is
+    processed (`fetchUpstream` / `onAnswer`, and the `directFallback` after it,
+    which uses `fu.cache`). Eviction, cleanup, deletes and other requests'
+    stores may make `cMid ≠ c`. -/
+def dedupFetchEnv (cfg : Cfg) (tbl : Nat → Option ORes) (c cMid : Cache) (now : Int) (r : Req) (range : Option Str) (rangePresent : Bool) : DF :=
   if rangePresent || r.method ≠ "GET" then
     -- not coalesced, never looked up: straight to the origin (the Range header is forwarded)
-    let fu := fetchUpstream cfg tbl c now (upReq r range) rangePresent
+    let fu := fetchUpstream cfg tbl cMid now (upReq r range) rangePresent
     match fu.out with
     | .notCacheable => directFallback tbl fu.cache r (if fu.rangeDropped then none else range) fu.log fu.rangeDropped
     | f => { out := f, label := .miss, cache := fu.cache, log := fu.log, rangeDropped := fu.rangeDropped }
   else
     match lookup c r.res r.query with
     | none =>
-      let fu := fetchUpstream cfg tbl c now (upReq r range) false
+      let fu := fetchUpstream cfg tbl cMid now (upReq r range) false
       (match fu.out with
         | .cached e st => { out := .cached e st, label := .miss, cache := fu.cache, log := fu.log, rangeDropped := fu.rangeDropped }
         | _ => directFallback tbl fu.cache r range fu.log fu.rangeDropped)
@@ -269,10 +277,15 @@ def dedupFetch (cfg : Cfg) (tbl : Nat → Option ORes) (c : Cache) (now : Int) (
         let u := { upReq r range with
                    inm := e.o.etag,
                    ims := (match e.o.lm with | .at l => some l | _ => none) }
-        let fu := fetchUpstream cfg tbl c now u false
+        let fu := fetchUpstream cfg tbl cMid now u false
         (match fu.out with
           | .cached e' st => { out := .cached e' st, label := .revalidated, cache := fu.cache, log := fu.log, rangeDropped := fu.rangeDropped }
           | _ => directFallback tbl fu.cache r range fu.log fu.rangeDropped)
+
+/-- `dedupFetch` when nothing else touches the cache while the origin answers:
+    the cache the answer is processed against is the cache that was looked up. -/
+def dedupFetch (cfg : Cfg) (tbl : Nat → Option ORes) (c : Cache) (now : Int) (r : Req) (range : Option Str) (rangePresent : Bool) : DF :=
+  dedupFetchEnv cfg tbl c c now r range rangePresent
 
 /-! ### building the response -/
 
@@ -317,15 +330,17 @@ def ifRangeMismatch (r : Req) (e : CEntry) : Bool :=
       | _ => true)
   | none, none => false
 
-/-- `handleHTTP` for one request. -/
-def handle (cfg : Cfg) (tbl : Nat → Option ORes) (c : Cache) (now : Int) (r : Req) : Resp × Cache × List UpReq :=
+/-- `handleHTTP` for one request, with the mid-flight cache `cMid` of the FIRST
+    `dedupFetch` explicit (see `dedupFetchEnv`). The retry `dedupFetch` runs on
+    the cache the first one left. -/
+def handleEnv (cfg : Cfg) (tbl : Nat → Option ORes) (c cMid : Cache) (now : Int) (r : Req) : Resp × Cache × List UpReq :=
   -- ParseHeaderDirective: the Range header counts only if it parses
   let parsed : Option (Int × Int) := match r.range with
     | some x => (match Range.parseRangeHeader x with
         | .ok a b => some (a, b)
         | _ => none)
     | none => none
-  let df := dedupFetch cfg tbl c now r r.range parsed.isSome
+  let df := dedupFetchEnv cfg tbl c cMid now r r.range parsed.isSome
   let rangeLive := parsed.isSome && !df.rangeDropped
   match df.out with
   | .direct a => (relay a r.method df.label, df.cache, df.log)
@@ -353,5 +368,9 @@ def handle (cfg : Cfg) (tbl : Nat → Option ORes) (c : Cache) (now : Int) (r : 
           ({ status := 206, label := .none,
              body := if r.method = "HEAD" then .empty else .stored e.o.ver st.toNat (en - st + 1).toNat,
              hdrFrom := some e.o, contentRange := some (st.toNat, en.toNat, e.o.size) }, df.cache, df.log)
+
+/-- `handleHTTP` for one request when the cache is not touched in the window. -/
+def handle (cfg : Cfg) (tbl : Nat → Option ORes) (c : Cache) (now : Int) (r : Req) : Resp × Cache × List UpReq :=
+  handleEnv cfg tbl c c now r
 
 end Rv.Fetch
